@@ -12,7 +12,8 @@ from .ops import SymOps, Namespace, BindingError
 
 
 class Loop:
-    def __init__(self, invariant, variant=None, body_ensures=None, on_exit=None, iterates=None):
+    def __init__(self, invariant, variant=None, body_ensures=None, on_exit=None, iterates=None, runs_to_exhaustion=False):
+        self.runs_to_exhaustion = runs_to_exhaustion   # True: leaving the loop by ``break`` is a failed obligation
         self.invariant, self.variant = invariant, variant
         self.iterates = iterates             # lambda S, a: clauses about a.it_, the value a for-loop iterates over (obligation at loop entry)
         self.on_exit = on_exit               # lambda eng, st: st  - ghost update when the loop is left by exhaustion / false test
